@@ -1,6 +1,7 @@
 package main
 
 import (
+	"flag"
 	"encoding/json"
 	"fmt"
 	"go/types"
@@ -28,7 +29,12 @@ import (
 //
 // Obligations inside loops (invariant preservation) describe an arbitrary
 // iteration, not an execution from the entry: no replay is attempted for them.
+// set by the adapters: where the generated test runs and what reproduces the violation
+var lastReplayDir, lastReplayPkg, lastReplayExpect string
+
 func tryReplay(id string, o *Obligation, r SolveResult, eng *Engine, cfg *PropConfig) (test, out string, reproduced bool) {
+	lastReplayDir, lastReplayPkg, lastReplayExpect = "", "", ""
+
 	e := o.enc
 	if e == nil || e.fn == nil {
 		return "", "", false
@@ -292,6 +298,13 @@ func TestGovcReplay(t *testing.T) {
 	ovFile := filepath.Join(tmp, "overlay.json")
 	os.WriteFile(ovFile, ovData, 0o644)
 	rel, _ := filepath.Rel(eng.RepoDir, dir)
+	lastReplayDir, lastReplayPkg = rel, "./"+rel
+	switch o.Kind {
+	case "bounds", "div0", "panic", "assert-type":
+		lastReplayExpect = "REPLAY-PANIC"
+	case "post":
+		lastReplayExpect = "REPLAY-RESULT: " + strings.Join(expect, "|")
+	}
 	cmd := exec.Command("go", "test", "-overlay", ovFile, "-vet=off", "-timeout", "60s", "-count=1", "-v", "-run", "^TestGovcReplay$", "./"+rel)
 	cmd.Dir = eng.RepoDir
 	cmd.Env = append(os.Environ(), "GOFLAGS=-mod=mod", "GOPROXY=off")
@@ -608,6 +621,7 @@ func TestGovcReplay(t *testing.T) {
 }
 `, o.Name, string(data), off)
 	dir := filepath.Join(eng.RepoDir, "cue", "scanner")
+	lastReplayDir, lastReplayPkg, lastReplayExpect = "cue/scanner", "./cue/scanner", "REPLAY-PANIC"
 	out, err2 := runOverlayTest(eng, dir, "./cue/scanner", src)
 	if err2 != nil {
 		return src, err2.Error(), false
@@ -643,4 +657,51 @@ func runOverlayTest(eng *Engine, dir, pkg, src string) (string, error) {
 		return "", fmt.Errorf("replay timed out")
 	}
 	return string(outb), nil
+}
+
+// replayCmd: govc replay <file> re-runs the test recorded in a replay file against
+// /repo's current working tree. Exit 1 if the violation reproduces, 0 if the test
+// runs and does not, 2 if the file records no test (the obligation then has to be
+// re-derived with `govc check -prop <id>`).
+func replayCmd(args []string) {
+	fs := flag.NewFlagSet("replay", flag.ExitOnError)
+	repo := fs.String("repo", "/repo", "repository")
+	fs.Parse(args)
+	if fs.NArg() != 1 {
+		fmt.Fprintln(os.Stderr, "usage: govc replay [-repo dir] <replay file>")
+		os.Exit(2)
+	}
+	data, err := os.ReadFile(fs.Arg(0))
+	if err != nil {
+		fmt.Fprintln(os.Stderr, err)
+		os.Exit(2)
+	}
+	var rp map[string]any
+	if err := json.Unmarshal(data, &rp); err != nil {
+		fmt.Fprintln(os.Stderr, err)
+		os.Exit(2)
+	}
+	str := func(k string) string { s, _ := rp[k].(string); return s }
+	fmt.Printf("property:   %s\nobligation: %s\nclause:     %s (%s)\nsolver:     %s %s, candidate model: %v\n", str("property"), str("obligation"), str("clause"), str("clause_at"), str("solver"), str("status"), rp["candidate_model"])
+	test, dir, pkg, expect := str("replay_test"), str("replay_dir"), str("replay_pkg"), str("replay_expect")
+	if test == "" || dir == "" || strings.HasPrefix(test, "(no test") {
+		fmt.Println("no replayable test recorded for this obligation (no-failing-input-found); re-derive it with: govc check -prop " + str("property"))
+		if so := str("solver_output"); so != "" {
+			fmt.Println("solver output at the time:\n" + so)
+		}
+		os.Exit(2)
+	}
+	eng := NewEngine(*repo)
+	out, err := runOverlayTest(eng, filepath.Join(*repo, dir), pkg, test)
+	if err != nil {
+		fmt.Println("replay failed to run:", err)
+		os.Exit(2)
+	}
+	fmt.Println(out)
+	if expect != "" && strings.Contains(out, expect) {
+		fmt.Println("REPRODUCED: the real code shows the violation (" + expect + ")")
+		os.Exit(1)
+	}
+	fmt.Println("not reproduced on the current tree")
+	os.Exit(0)
 }
